@@ -122,6 +122,14 @@ Definition regression_ok (labels : list string) (k : name) : bool :=
                           (valid_rust_ident (emit_ident s k) && name_eqb (denotes (emit_ident s k)) k)) SITES
   && existsb (fun s => pos_in s labels) SITES.
 
+(* ---------------------------------------------------------------- name-keyed lookups *)
+
+(* the key a lookup presents for the source name n; the tables are keyed by the plain name, so the
+   lookup finds the entry registered for n iff the key is n itself *)
+Definition lookup_key (l : lookup) (n : name) : name :=
+  if l_escaped l then gen_escape_keyword n else n.
+Definition lookup_hits (l : lookup) (n : name) : bool := name_eqb (lookup_key l n) n.
+
 (* ---------------------------------------------------------------- finding classes *)
 
 (* Known_C13_rust_keyword: a Rust keyword (by the compiler's own table) that Incan does not reserve *)
